@@ -115,6 +115,20 @@ def damaged(seed, objs):
     signal.signal(signal.SIGALRM, _alarm)
     cases = 0
     values = [[1, 2, 3], {"a": "b" * 50, "c": list(range(40))}, "x" * 300, (1.5, None, b"bytes" * 30)][:objs]
+    same = lambda a, b: a == b
+    try:
+        import numpy as np
+        # array payloads go through joblib's own chunked reader (NumpyArrayWrapper.read_array), not through the unpickler
+        values += [np.arange(40, dtype="<f8"), {"k": np.arange(12, dtype="<i4").reshape(3, 4), "tail": "t" * 20}]
+
+        def same(a, b):  # noqa: F811
+            if isinstance(a, np.ndarray) or isinstance(b, np.ndarray):
+                return type(a) is type(b) and a.dtype == b.dtype and a.shape == b.shape and a.tobytes() == b.tobytes()
+            if isinstance(a, dict) and isinstance(b, dict):
+                return a.keys() == b.keys() and all(same(a[k], b[k]) for k in a)
+            return a == b
+    except ImportError:
+        pass
     comps = [0, ("zlib", 3), ("gzip", 3), ("bz2", 3), ("lzma", 3), ("xz", 3)]
     for v in values:
         for c in comps:
@@ -127,7 +141,7 @@ def damaged(seed, objs):
                 signal.alarm(15)
                 try:
                     out = joblib.load(io.BytesIO(data))
-                    if out != v:
+                    if not same(out, v):
                         return dict(violation=True, cases=cases, what="load returned a different object %r" % (out,), witness=dict(value=repr(v), compress=c, variant=i, length=len(data)))
                 except Hang:
                     return dict(violation=True, cases=cases, what="load did not terminate within 15 s", witness=dict(value=repr(v), compress=c, variant=i, length=len(data), full=len(raw)))
